@@ -124,7 +124,29 @@ pub fn run(b: &Built, argv: &[OsString], o: &RunOpts) -> Obs {
         if let Some(c) = o.comp {
             args = args.set_comp(c);
         }
-        match b.parser.run_inner(args) {
+        let res = b.parser.run_inner(args);
+        // the accessors a program (or a test) uses on a failure agree with the failure itself: exit status 0 for
+        // output meant for stdout, 1 for errors; the unwrapped text is the text that is printed
+        if let Err(pf) = &res {
+            let (code, text) = match pf {
+                ParseFailure::Stdout(d, full) => (0, d.monochrome(*full)),
+                ParseFailure::Completion(sx) => (0, sx.clone()),
+                ParseFailure::Stderr(d) => (1, d.monochrome(true)),
+            };
+            let unwrapped = match pf {
+                ParseFailure::Stderr(_) => pf.clone().unwrap_stderr(),
+                _ => pf.clone().unwrap_stdout(),
+            };
+            if pf.clone().exit_code() != code || unwrapped != text {
+                return Obs {
+                    class: "apidiff",
+                    value: None,
+                    text: format!("exit_code/unwrap disagree with the failure: {} {:?}", pf.clone().exit_code(), unwrapped),
+                    full: false,
+                };
+            }
+        }
+        match res {
             Ok(v) => Obs {
                 class: "ok",
                 value: Some(v.to_json()),
